@@ -107,7 +107,7 @@ func TestRegressRetainOptions(t *testing.T) {
 		{Name: "0.3.0", Target: 2},
 		{Name: "staging", Target: 2}, // two labels on one bundle
 		{Name: "prod", Target: 1},
-		{Name: "latest-x", Target: 5}, // on the newest bundle
+		{Name: "latest-x", Target: 5},          // on the newest bundle
 		{Name: "release_candidate", Target: 3}, // the only label of that bundle: not a semver tag
 		{Name: "v2.0.0-rc.1", Target: 4},
 	}
